@@ -222,12 +222,18 @@ Example C07_wif_rejects :
   /\ from_wif "5HueCGU8rMjxEXxiPuD5BDku4MkFqeZyd4dZ1jvhTVqvbTLvyTK" = Err.
 Proof. repeat split; vm_compute; reflexivity. Qed.
 
+(* uncompressed forms only: the reference instance over Z is slow on square roots; compressed forms are
+   exercised on the execution instance by the correspondence run *)
 Example C07_offcurve_rejected :
-  omap pk_point (pub_from_hex curve_ref "020000000000000000000000000000000000000000000000000000000000000005") = Err
+  omap pk_point (pub_from_hex curve_ref
+    "0479be667ef9dcbbac55a06295ce870b07029bfcdb2dce28d959f2815b16f81798483ada7726a3c4655da4fbfc0e1108a8fd17b448a68554199c47d08ffb10d4b9") = Err
   /\ omap pk_point (pub_from_hex curve_ref "00") = Err
-  /\ omap (fun pk => hex_of_bytes (pk_point pk))
-          (pub_from_hex curve_ref "0279be667ef9dcbbac55a06295ce870b07029bfcdb2dce28d959f2815b16f81798")
-     = Ok "0279be667ef9dcbbac55a06295ce870b07029bfcdb2dce28d959f2815b16f81798".
+  /\ omap pk_point (pub_from_hex curve_ref
+    "0679be667ef9dcbbac55a06295ce870b07029bfcdb2dce28d959f2815b16f81798483ada7726a3c4655da4fbfc0e1108a8fd17b448a68554199c47d08ffb10d4b8") = Err
+  /\ omap (fun pk => (hex_of_bytes (firstn 4 (pk_point pk)), pk_compressed pk))
+          (pub_from_hex curve_ref
+    "0479be667ef9dcbbac55a06295ce870b07029bfcdb2dce28d959f2815b16f81798483ada7726a3c4655da4fbfc0e1108a8fd17b448a68554199c47d08ffb10d4b8")
+     = Ok ("0479be66", false).
 Proof. repeat split; vm_compute; reflexivity. Qed.
 
 Example C07_genesis_locking :
